@@ -64,7 +64,7 @@ func BFS(r Reporter, sc Scenario) *Stats {
 	}
 	st.States = 1
 	frontier := [][]uint16{{}}
-	if init.Prune {
+	if init.Prune || len(init.Viols) > 0 {
 		frontier = nil
 	}
 	nl := len(sc.Letters)
